@@ -387,6 +387,14 @@ Proof.
   destruct go; cbn [app]; rewrite pad_none; reflexivity.
 Qed.
 
+Lemma to_uint64_zarg z : in_int64 z = true -> to_uint64 (NFin (z <? 0) (Z.abs z) 0) = z mod two64.
+Proof.
+  intros H. unfold to_uint64. rewrite to_int64_zarg by exact H.
+  unfold trunc_num. change (0 >=? 0) with true. cbv iota. change (2 ^ 0) with 1. rewrite Z.mul_1_r.
+  replace (if z <? 0 then - Z.abs z else Z.abs z) with z by (destruct (z <? 0) eqn:E; lia).
+  unfold in_int64 in H. replace ((two63 <=? z) && (z <? two64)) with false by lia. reflexivity.
+Qed.
+
 Lemma format_hex_roundtrip_lemma go z : in_int64 z = true ->
   fmt_dir go (plain 120) (zarg z) = Some (digits 16 false (z mod two64)) /\
   fmt_dir go (plain 88) (zarg z) = Some (digits 16 true (z mod two64)) /\
@@ -399,7 +407,7 @@ Proof.
   intros H. unfold fmt_dir, zarg.
   change (d_verb (plain 120)) with 120. change (d_verb (plain 88)) with 88.
   change (d_verb (plain 111)) with 111. cbn [Z.eqb Pos.eqb orb].
-  rewrite to_int64_zarg by exact H. rewrite !fmt_unsigned_plain.
+  rewrite to_uint64_zarg by exact H. rewrite !fmt_unsigned_plain.
   assert (Hm : 0 <= z mod two64) by (apply Z.mod_pos_bound; reflexivity).
   repeat split; try (apply of_digits_digits; lia).
   - intros Hz. apply Z.mod_small. unfold in_int64, two63 in H. unfold two64. lia.
@@ -416,6 +424,7 @@ Proof.
   - destruct (run_items go its args) eqn:E; try discriminate.
     rewrite (IH _ _ extra E). exact H.
   - destruct args as [|a args']; [discriminate|]. cbn [app].
+    destruct (negb (valid_verb (d_verb sp))); [discriminate|].
     destruct (resolve sp a) as [a'|]; [|discriminate].
     destruct (fmt_dir go sp a'); [|discriminate].
     destruct (run_items go its args') eqn:E; try discriminate.
@@ -432,6 +441,7 @@ Proof.
     + destruct (run_items go its args) eqn:E; try discriminate.
       apply IH in E. unfold ndirs in *. cbn [filter]. exact E.
     + destruct args as [|a args']; [discriminate|].
+      destruct (negb (valid_verb (d_verb sp))); [discriminate|].
       destruct (resolve sp a) as [a'|]; [|discriminate].
       destruct (fmt_dir go sp a'); [|discriminate].
       destruct (run_items go its args') eqn:E; try discriminate.
@@ -486,7 +496,8 @@ Proof.
     destruct (d_verb sp =? 99) eqn:V99.
     { f_equal. apply pad_str_eq. unfold verb_in in H. cbn [existsb] in H. rewrite V99 in H. exact H. }
     destruct (d_verb sp =? 120); [reflexivity|]. destruct (d_verb sp =? 88); [reflexivity|].
-    destruct (d_verb sp =? 111); [reflexivity|]. destruct (d_verb sp =? 101); [reflexivity|].
+    destruct (d_verb sp =? 111); [reflexivity|]. destruct (d_verb sp =? 117); [reflexivity|].
+    destruct (d_verb sp =? 101); [reflexivity|].
     destruct (d_verb sp =? 69); [reflexivity|]. destruct (d_verb sp =? 102); [reflexivity|].
     destruct (d_verb sp =? 115) eqn:V115; [|reflexivity].
     destruct (is_integral n && in_int64 (to_int64 n) && negb (to_int64 n =? - two63)); [|reflexivity].
@@ -525,7 +536,12 @@ Proof. vm_compute. repeat split; reflexivity. Qed.
 
 (* a numeric string given to a numeric conversion is converted; a non-numeric one raises *)
 Lemma format_numeric_string_lemma go sp s n rest its :
-  numeric_verb (d_verb sp) = true ->
+  numeric_verb (d_verb sp) = true -> valid_verb (d_verb sp) = true ->
   run_items go (IDir sp :: its) (AConv s (Some n) :: rest) = run_items go (IDir sp :: its) (ANum n :: rest) /\
   run_items go (IDir sp :: its) (AConv s None :: rest) = FErr.
-Proof. intros H. cbn [run_items resolve]. rewrite H. split; reflexivity. Qed.
+Proof. intros H Hv. cbn [run_items resolve]. rewrite H, Hv. split; reflexivity. Qed.
+
+(* a conversion lstrlib does not define raises *)
+Lemma format_invalid_option_lemma go sp a rest its :
+  valid_verb (d_verb sp) = false -> run_items go (IDir sp :: its) (a :: rest) = FErr.
+Proof. intros H. cbn [run_items]. rewrite H. reflexivity. Qed.
